@@ -1127,7 +1127,7 @@ def execute(scenario, keep_trace=False):
                 f'{"the empty string" if pw == "" else "another password"} ({variant}) returned {res!r} and replaced '
                 f'Wallet.encryption_password: later saves / lock() encrypt with a password the user never chose'
                 f'{" (the empty string: secrets are written in clear)" if pw == "" else ""}, the original password is '
-                f'refused after a restart', state='unlocked', empty=pw == '')
+                f'refused after a restart', state='unlocked')
         if wallet.is_locked or serialised(wallet) != before:
             bad('C13.wrong_password_mutated', f'unlock() with another password ({variant}) on an unlocked wallet '
                 f'changed its accounts', field='serialised', acct='-')
@@ -1263,8 +1263,7 @@ def execute(scenario, keep_trace=False):
                 if res and wallet.encryption_password != pw:
                     bad('C13.password_adopted', f'unlock(right password) was suspended in the database; a second '
                         f'unlock request with another password ({q_variant}) returned {race["second"]!r} and its '
-                        f'password replaced the right one as Wallet.encryption_password', state='overlapping_unlock',
-                        empty=q == '')
+                        f'password replaced the right one as Wallet.encryption_password', state='overlapping_unlock')
         run.ev('unlock', n, flavour, bool(res), raised, wallet.is_locked)
         sync_watch_flags(wallet)
         if not expected:
@@ -1300,14 +1299,17 @@ def execute(scenario, keep_trace=False):
         if right is not None:
             P['unlock_right'] += 1
             if not res:
-                # Wallet.unlock stops at the first account it cannot open: that one is the culprit
-                culprit = next((m.orig for acc, m in zip(wallet.accounts, M.accounts) if acc.encrypted and m.secret),
-                               None)
+                # Wallet.unlock stops at the first account it cannot open (and may lock the ones before it again):
+                # name the still-encrypted account with an unusual seed text if there is one, else the first one
+                stuck = [m.orig for acc, m in zip(wallet.accounts, M.accounts) if acc.encrypted and m.secret]
+                culprit = next((o for o in stuck if o['seedtext'] not in ('canonical', '-')), stuck[0] if stuck else None)
                 bad('C13.unlock_mismatch', f'unlock with the right password was refused (returned {res!r}, '
                     f'raised {raised}); the account that stays encrypted is a '
                     f'{culprit["kind"] if culprit else "?"} account, seed text: '
                     f'{culprit["seedtext"] if culprit else "?"}', field='result',
-                    acct=culprit['kind'] if culprit else '-', seedtext=culprit['seedtext'] if culprit else '-')
+                    acct=culprit['kind'] if culprit else '-',
+                    seedtext=('-' if not culprit else culprit['seedtext'] if culprit['seedtext'] in ('canonical', '-')
+                              else 'noncanonical'))     # few, stable site values: the spelling is in the detail
         elif not res:
             M.password = model_pw_before
             return  # watch-only flag and a refusal: outside the statement either way
